@@ -69,4 +69,20 @@ theorem C10_unknown_type (env : Env) (m : YPairs) (tn : String) (ht : exStr m "t
   have h10 := hne "const" (by decide)
   simp [h1, h2, h3, h4, h5, h6, h7, h8, h9, h10, hf]
 
+/-! ### non-vacuity: a concrete, non-trivial parameter space and value meet the hypotheses used above -/
+
+/-- an integer with bounds, a resizable map of booleans with size bounds, an optional enum -/
+def exSpec10 : SNode :=
+  .sub (.cons "a" (.int 3 (.fin 4607182418800017408) (some 0) (some 10))
+       (.cons "m" (.amap (.bool false) 2 (some 1) (some 3))
+       (.cons "o" (.opt (.enum ["x", "y"] "x") false) .nil)))
+
+
+example : wf exSpec10 = true ∧ keysWritable exSpec10 = true := by decide
+
+/-- the canonical document of that space is a valid tree and is read back as exactly that space -/
+example : yvalid (render (fun _ => .fin 0) exSpec10) = true ∧
+    (match parseSpec (render (fun _ => .fin 0) exSpec10) with | .ok s => s == exSpec10 | .error _ => false) = true := by
+  decide
+
 end Cambrian.Props
